@@ -73,8 +73,8 @@ pub enum Rule {
     /// deliver a stray to the worker immediately before the idx-th peer datagram
     InjectBefore { idx: usize, stray: Stray },
     /// deliver a stray `offset` ns after the worker's burst number `burst` (0-based) was sent;
-    /// with `suppress`, peer datagrams *sent* in [burst time, burst time + offset] are lost
-    InjectAfterBurst { burst: usize, offset: u64, stray: Stray, suppress: bool },
+    /// with `suppress`, peer datagrams *sent* in [burst time, burst time + max(offset, suppress_for)] are lost
+    InjectAfterBurst { burst: usize, offset: u64, stray: Stray, suppress: bool, suppress_for: u64 },
     /// every datagram of a direction is delivered 1 + extra times
     DupAll { dir: Dir, extra: u32 },
     /// seeded random loss in permille for a direction
@@ -246,6 +246,7 @@ pub struct Core {
     drops: usize,
     pub dgram_abs: [Vec<u64>; 2],
     verified_prefix: u64,
+    consecutive_timeouts: u32,
 }
 
 impl Core {
@@ -292,6 +293,7 @@ impl Core {
             drops: 0,
             dgram_abs: [Vec::new(), Vec::new()],
             verified_prefix: 0,
+            consecutive_timeouts: 0,
         }
     }
 
@@ -547,12 +549,13 @@ impl Core {
             let burst = self.burst_times.len();
             self.burst_times.push(self.now);
             for ri in 0..self.spec.rules.len() {
-                if let Rule::InjectAfterBurst { burst: bi, offset, stray, suppress } = self.spec.rules[ri].clone() {
+                if let Rule::InjectAfterBurst { burst: bi, offset, stray, suppress, suppress_for } = self.spec.rules[ri].clone() {
                     if bi == burst {
                         self.rules_fired += 1;
                         self.push(self.now + offset, Delivery { to_worker: true, bytes: vec![], abs: ri as u64, tag: stray_tag(stray) });
                         if suppress {
-                            self.suppress_until = Some(self.now + offset);
+                            let until = self.now + offset.max(suppress_for);
+                            self.suppress_until = Some(self.suppress_until.map_or(until, |u| u.max(until)));
                         }
                     }
                 }
@@ -627,10 +630,17 @@ impl Core {
                 self.now = deadline;
                 self.sync_clock();
                 self.log.push(Ev::RecvTimeout { vt: self.now });
+                // a worker that keeps waiting is cut off long after the monitors' bound (16) was exceeded
+                self.consecutive_timeouts += 1;
+                if self.consecutive_timeouts > 48 && !self.capped {
+                    self.capped = true;
+                    self.log.push(Ev::Cap);
+                }
                 self.cap_check();
                 Err("simulated receive timeout".into())
             }
             Some(mut d) => {
+                self.consecutive_timeouts = 0;
                 self.sync_clock();
                 if d.bytes.is_empty() && d.tag.starts_with("stray") {
                     // late-bound stray: resolve against the state at delivery time
